@@ -1,3 +1,5 @@
+//go:build !noast
+
 package main
 
 import (
